@@ -8,14 +8,18 @@ Import ListNotations RecordSetNotations.
 Definition at_ (u : bool) (s : vst) (l : list N) : Prop :=
   skipn (pos s) (units (rd s)) = l /\ strict s = u /\ uflag s = u /\ nflag s = u.
 (* the part of in_fragment the simulation depends on *)
-Definition frag (l : list N) : Prop := scan false l = true.
+Definition frag (u : bool) (l : list N) : Prop := scan u false l = true.
 (* a fact kept aside in its original form *)
 Definition keep (P : Prop) : Prop := P.
 Definition cfgeq (s t : vst) : Prop :=
   units (rd t) = units (rd s) /\ strict t = strict s /\ uflag t = uflag s /\ nflag t = nflag s /\
   ncap t = ncap s /\ gnames t = gnames s /\ brnames t = brnames s.
 Definition Post {A} (u : bool) (s : vst) (_ : A) (t : vst) (l' : list N) : Prop :=
-  at_ u t l' /\ frag l' /\ cfgeq s t.
+  at_ u t l' /\ frag u l' /\ cfgeq s t.
+(* the validator is at the unit after a backslash: the escaped state of the scan *)
+Definition efrag (u : bool) (l : list N) : Prop := scan u true l = true.
+Definition PostE (u : bool) (s : vst) (b : bool) (t : vst) (l' : list N) : Prop :=
+  at_ u t l' /\ cfgeq s t /\ (b = true -> frag u l').
 Definition SimR {A} (P : A -> vst -> list N -> Prop) (r : R A) (x : SR A) : Prop :=
   match r, x with
   | Ok a t, SOk a' l' => a = a' /\ P a t l'
@@ -25,6 +29,9 @@ Definition SimR {A} (P : A -> vst -> list N -> Prop) (r : R A) (x : SR A) : Prop
   end.
 Definition SimP (P : bool -> vst -> list N -> Prop) (r : R bool) (p : bool * list N) : Prop :=
   match r with Ok a t => a = fst p /\ P a t (snd p) | _ => False end.
+(* a model function that cannot fail against a recogniser piece that cannot fail *)
+Definition SimB (P : bool -> vst -> list N -> Prop) (p : bool * vst) (x : bool * list N) : Prop :=
+  fst p = fst x /\ P (fst p) (snd p) (snd x).
 
 Lemma nth_error_skipn_add {A} (us : list A) i k : nth_error (skipn i us) k = nth_error us (i + k).
 Proof. revert us; induction i as [|i IH]; intros us; [reflexivity|]. destruct us as [|x us]; [destruct k; reflexivity|]. apply IH. Qed.
@@ -53,7 +60,7 @@ Definition assertion_prefix (l : list N) : bool :=
   end.
 Lemma sp_group_body_not_false sdisj l r : sp_group_body sdisj l <> SOk false r.
 Proof. unfold sp_group_body. destruct (sdisj l) as [[] [|c r0]| |]; try discriminate. destruct (c =? g_rparen); discriminate. Qed.
-Lemma sp_assertion_false_prefix sdisj l r : sp_assertion sdisj l = SOk false r -> scan false l = true -> assertion_prefix l = false.
+Lemma sp_assertion_false_prefix u sdisj l r : sp_assertion sdisj l = SOk false r -> scan u false l = true -> assertion_prefix l = false.
 Proof.
   destruct l as [|c0 [|c1 l1]]; try reflexivity. cbn [sp_assertion assertion_prefix].
   destruct (N.eqb_spec c0 g_caret) as [->|_]; [discriminate|]. destruct (N.eqb_spec c0 g_dollar) as [->|_]; [discriminate|].
@@ -86,6 +93,87 @@ Lemma sp_escape_not_bs u c r : (c =? 92)%N = false -> sp_escape u (c :: r) = SOk
 Proof. intros E. cbn [sp_escape]. unfold g_backslash. destruct r; rewrite E; reflexivity. Qed.
 Lemma syntax_character_is_syntax c : syntax_character c = is_syntax c.
 Proof. reflexivity. Qed.
+(* a recogniser piece that answers "not here" has consumed nothing *)
+Ltac same_rest H :=
+  repeat match type of H with
+         | (match ?x with _ => _ end) = _ => destruct x eqn:?
+         | (let '(_, _) := ?x in _) = _ => destruct x eqn:?
+         end; inversion H; try reflexivity.
+Lemma sp_fixed_hex_false_eq n l r : sp_fixed_hex n l = (false, r) -> r = l.
+Proof. intros H. exact (proj1 (sp_fixed_hex_false _ _ _ _ H eq_refl)). Qed.
+Lemma sp_surrogate_pair_false_eq l r : sp_surrogate_pair l = (false, r) -> r = l.
+Proof. intros H. exact (sp_surrogate_pair_false _ _ _ H eq_refl). Qed.
+Lemma sp_codepoint_false_eq l r : sp_codepoint l = SOk false r -> r = l.
+Proof. intros H. apply sp_codepoint_sound in H. destruct H as [[H _]|[_ H]]; [discriminate|exact H]. Qed.
+Lemma sp_hex_esc_false_eq u l r : sp_hex_esc u l = SOk false r -> r = l.
+Proof. intros H. apply sp_hex_esc_sound in H. destruct H as [[H _]|[_ [H _]]]; [discriminate|exact H]. Qed.
+Lemma sp_unicode_esc_false_eq u l r : sp_unicode_esc u l = SOk false r -> r = l.
+Proof. intros H. apply sp_unicode_esc_sound in H. destruct H as [[H _]|[_ [H _]]]; [discriminate|exact H]. Qed.
+Lemma sp_atom_escape_false_eq u l r : sp_atom_escape u l = SOk false r -> r = l.
+Proof. intros H. apply sp_atom_escape_sound in H. destruct H as [[H _]|[_ H]]; [discriminate|exact H]. Qed.
+Lemma sp_escape_false_eq u l r : sp_escape u l = SOk false r -> r = l.
+Proof. intros H. apply sp_escape_sound in H. destruct H as [[H _]|[_ H]]; [discriminate|exact H]. Qed.
+(* consume_atom_escape in two pieces *)
+Definition sp_cce (l : list N) : SR bool :=
+  match l with c :: r => if character_class_escape c then SOk true r else SOk false l | [] => SOk false l end.
+Definition sp_ce (u : bool) (l : list N) : SR bool :=
+  match l with
+  | [] => SOk false l
+  | c :: r =>
+      if control_escape c then SOk true r
+      else if (c =? 99) && starts_letter r then SOk true (tl r)
+      else if (c =? 48) && negb (starts_digit r) then SOk true r
+      else
+        match sp_hex_esc u l with
+        | SOk true r' => SOk true r'
+        | SOk false _ =>
+            match sp_unicode_esc u l with
+            | SOk true r' => SOk true r'
+            | SOk false _ => if identity_escape u c && negb (c =? 48) then SOk true r else SOk false l
+            | SErr => SErr
+            | SFuel => SFuel
+            end
+        | SErr => SErr
+        | SFuel => SFuel
+        end
+  end.
+Lemma sp_atom_escape_split u l : sp_atom_escape u l =
+  match sp_cce l with
+  | SOk true r' => SOk true r'
+  | SOk false _ =>
+      match sp_ce u l with
+      | SOk true r' => SOk true r'
+      | SOk false _ => if u then SErr else SOk false l
+      | SErr => SErr
+      | SFuel => SFuel
+      end
+  | SErr => SErr
+  | SFuel => SFuel
+  end.
+Proof.
+  destruct l as [|c r]; [reflexivity|]. cbn [sp_atom_escape sp_cce sp_ce].
+  destruct (character_class_escape c); [reflexivity|]. destruct (control_escape c); [reflexivity|].
+  destruct ((c =? 99) && starts_letter r); [reflexivity|]. destruct ((c =? 48) && negb (starts_digit r)); [reflexivity|].
+  destruct (sp_hex_esc u (c :: r)) as [[|] r1| |]; try reflexivity.
+  destruct (sp_unicode_esc u (c :: r)) as [[|] r2| |]; try reflexivity.
+  destruct (identity_escape u c && negb (c =? 48)); reflexivity.
+Qed.
+Lemma sp_cce_false_eq l r : sp_cce l = SOk false r -> r = l.
+Proof. destruct l as [|c l']; cbn [sp_cce]; [intros [= <-]; reflexivity|]. destruct (character_class_escape c); [discriminate|intros [= <-]; reflexivity]. Qed.
+Lemma sp_ce_false_eq u l r : sp_ce u l = SOk false r -> r = l.
+Proof.
+  destruct l as [|c l']; cbn [sp_ce]; [intros [= <-]; reflexivity|].
+  destruct (control_escape c); [discriminate|]. destruct ((c =? 99) && starts_letter l')%bool; [discriminate|].
+  destruct ((c =? 48) && negb (starts_digit l'))%bool; [discriminate|].
+  destruct (sp_hex_esc u (c :: l')) as [[|] r1| |]; try discriminate.
+  destruct (sp_unicode_esc u (c :: l')) as [[|] r2| |]; try discriminate.
+  destruct (identity_escape u c && negb (c =? 48))%bool; [discriminate|intros [= <-]; reflexivity].
+Qed.
+Lemma sp_escape_true_bs l r : sp_escape true (92 :: l) = SOk false r -> False.
+Proof.
+  cbn [sp_escape N.eqb Pos.eqb g_backslash]. rewrite sp_atom_escape_split.
+  destruct (sp_cce l) as [[|] r1| |]; try discriminate. destruct (sp_ce true l) as [[|] r2| |]; discriminate.
+Qed.
 Lemma sp_brq_nil u ne : sp_brq u ne [] = SOk false [].
 Proof. unfold sp_brq. cbn [sp_braced starts_with]. rewrite andb_false_r. reflexivity. Qed.
 
@@ -102,6 +190,7 @@ Ltac prim :=
 Ltac unfold_hyps :=
   repeat match goal with
          | H : Post _ _ _ _ _ |- _ => unfold Post in H
+         | H : PostE _ _ _ _ _ |- _ => unfold PostE in H
          | H : at_ _ _ _ |- _ => unfold at_, pos in H
          | H : cfgeq _ _ |- _ => unfold cfgeq in H
          | H : _ /\ _ |- _ => destruct H
@@ -119,22 +208,23 @@ Ltac feed :=
              | _ : skipn (S j) us = r |- _ => fail
              | _ => pose proof (skipn_S_tl us j c r H)
              end
-         | H : frag _ |- _ => unfold frag in H
-         | H : scan false [] = true |- _ => clear H
-         | H : scan true [] = true |- _ => discriminate H
-         | H : scan true (_ :: _) = true |- _ =>
+         | H : frag _ _ |- _ => unfold frag in H
+         | H : efrag _ _ |- _ => unfold efrag in H
+         | H : scan _ false [] = true |- _ => clear H
+         | H : scan _ true [] = true |- _ => discriminate H
+         | H : scan _ true (_ :: _) = true |- _ =>
              cbn [scan] in H; apply andb_true_iff in H; destruct H as [? H]
-         | H : scan false (?c :: ?r) = true |- _ =>
+         | H : scan ?u false (?c :: ?r) = true |- _ =>
              lazymatch goal with
-             | _ : keep (scan false (c :: r) = true) |- _ => idtac
-             | _ => pose proof (H : keep (scan false (c :: r) = true))
+             | _ : keep (scan u false (c :: r) = true) |- _ => idtac
+             | _ => pose proof (H : keep (scan u false (c :: r) = true))
              end;
              cbn [scan] in H; unfold g_backslash in H;
              first [ is_var c;
                      let E := fresh "Ebs" in
                      destruct (c =? 92)%N eqn:E; [apply N.eqb_eq in E; subst c|]
                    | cbn [N.eqb Pos.eqb] in H ]
-         | H : plain_char _ && local_ok _ _ && scan false _ = true |- _ =>
+         | H : plain_char _ && local_ok _ _ && scan _ false _ = true |- _ =>
              apply andb_true_iff in H; destruct H as [H ?]; apply andb_true_iff in H; destruct H as [? ?]
          end.
 Ltac rw1 :=
@@ -159,9 +249,13 @@ Ltac absurd_hyp :=
   | H : local_ok _ _ = true |- _ =>
       unfold local_ok, is_eq_or_bang in H; unfold_chars; cbn [N.eqb Pos.eqb andb orb] in H;
       saturate H; cbn [orb andb negb] in H; discriminate H
-  | H : allowed_after_backslash _ = true |- _ =>
-      unfold allowed_after_backslash, is_dec_digit in H; cbn [existsb] in H; saturate H; cbn [orb andb negb] in H; discriminate H
-  | H : allowed_after_backslash _ = true |- _ => vm_compute in H; discriminate H
+  | H : allowed_after_backslash _ _ _ = true |- _ =>
+      unfold allowed_after_backslash, nonzero_digit, starts_digit in H; change decimal_digit with is_digit in H;
+      cbn [existsb N.eqb Pos.eqb N.leb N.compare Pos.compare Pos.compare_cont] in H; saturate H;
+      cbn [orb andb negb N.eqb Pos.eqb] in H; discriminate H
+  | H : allowed_after_backslash ?u ?c ?r = true |- _ =>
+      lazymatch u with true => idtac | false => idtac end; lazymatch r with [] => idtac | _ :: _ => idtac end;
+      vm_compute in H; discriminate H
   | H : plain_char _ = true |- _ => vm_compute in H; discriminate H
   | H : assertion_prefix _ = false |- _ => vm_compute in H; discriminate H
   | H : assertion_prefix _ = false |- _ =>
@@ -198,6 +292,16 @@ Ltac cleanup :=
          | H : Some _ = Some _ |- _ => injection H as H
          | H : sp_quant _ _ ?l = SOk false ?r |- _ => is_var r; apply sp_quant_false in H; subst r
          | H : sp_brq _ _ ?l = SOk false ?r |- _ => is_var r; pose proof (sp_brq_false _ _ _ _ H); subst r
+         | H : sp_fixed_hex _ ?l = (false, ?r) |- _ => is_var r; pose proof (sp_fixed_hex_false_eq _ _ _ H); subst r
+         | H : sp_surrogate_pair ?l = (false, ?r) |- _ => is_var r; pose proof (sp_surrogate_pair_false_eq _ _ H); subst r
+         | H : sp_codepoint ?l = SOk false ?r |- _ => is_var r; pose proof (sp_codepoint_false_eq _ _ H); subst r
+         | H : sp_hex_esc _ ?l = SOk false ?r |- _ => is_var r; pose proof (sp_hex_esc_false_eq _ _ _ H); subst r
+         | H : sp_unicode_esc _ ?l = SOk false ?r |- _ => is_var r; pose proof (sp_unicode_esc_false_eq _ _ _ H); subst r
+         | H : sp_atom_escape _ ?l = SOk false ?r |- _ => is_var r; pose proof (sp_atom_escape_false_eq _ _ _ H); subst r
+         | H : sp_escape true (92%N :: _) = SOk false _ |- _ => exfalso; exact (sp_escape_true_bs _ _ H)
+         | H : sp_escape _ ?l = SOk false ?r |- _ => is_var r; pose proof (sp_escape_false_eq _ _ _ H); subst r
+         | H : sp_cce ?l = SOk false ?r |- _ => is_var r; pose proof (sp_cce_false_eq _ _ H); subst r
+         | H : sp_ce _ ?l = SOk false ?r |- _ => is_var r; pose proof (sp_ce_false_eq _ _ _ H); subst r
          | H : sp_assertion _ ?l = SOk false ?r |- _ => is_var r; pose proof (sp_assertion_false_eq _ _ _ H); subst r
          | H : @eq unit _ _ |- _ => clear H
          | H : @eq N ?x ?y |- _ => first [is_var x; subst x | is_var y; subst y]
@@ -256,10 +360,11 @@ Ltac split_mem :=
 Ltac finish :=
   simp; repeat (case_scrut; proj; cleanup; try solve [exfalso; absurd_hyp]; simp);
   try (split_mem; try solve [exfalso; first [absurd_hyp | absurd_closed]]);
-  unfold SimP; cbn [SimR fst snd]; unfold Post, at_, cfgeq, pos, frag; proj; rewrite ?quantifiable_true;
+  unfold SimP; cbn [SimR fst snd]; unfold Post, PostE, at_, cfgeq, pos, frag; proj; rewrite ?quantifiable_true;
   repeat match goal with |- _ /\ _ => split end;
   try reflexivity; try assumption; try congruence;
   try solve [unfold keep in *; assumption];
+  try solve [intros; first [discriminate | assumption | unfold keep in *; assumption]];
   try solve [unfold frag; cbn [scan N.eqb Pos.eqb]; unfold_chars; cbn [N.eqb Pos.eqb];
              repeat match goal with E : (?c =? 92)%N = false |- _ => rewrite E end;
              repeat match goal with E : ?c <> 92%N |- _ => rewrite (proj2 (N.eqb_neq c 92) E) end;
@@ -267,7 +372,9 @@ Ltac finish :=
 
 #[global] Hint Extern 1 (at_ _ _ _) =>
   solve [unfold at_, pos; proj; split; [eassumption | split; [|split]; first [reflexivity | eassumption | congruence]]] : sim.
-#[global] Hint Extern 1 (frag _) => solve [unfold frag, keep in *; first [eassumption | reflexivity]] : sim.
+#[global] Hint Extern 1 (frag _ _) => solve [unfold frag, keep in *; first [eassumption | reflexivity]] : sim.
+#[global] Hint Extern 1 (efrag _ _) =>
+  solve [unfold efrag, keep in *; first [eassumption | cbn [scan]; apply andb_true_iff; split; first [eassumption | reflexivity]]] : sim.
 #[global] Hint Extern 1 (assertion_prefix _ = false) =>
   solve [eapply sp_assertion_false_prefix; [eassumption | unfold frag, keep in *; first [eassumption | reflexivity]]] : sim.
 
@@ -282,18 +389,16 @@ Ltac head_scrut t :=
 Ltac is_call c :=
   lazymatch type of c with
   | R _ => idtac
+  | (bool * vst)%type => lazymatch c with (_, _) => fail | _ => idtac end
   end.
 Ltac use_lemma c :=
   let L := fresh "L" in
-  first [ eassert (L : SimR _ c _) by (eauto with sim) | eassert (L : SimP _ c _) by (eauto with sim) ];
+  first [ eassert (L : SimR _ c _) by (eauto with sim) | eassert (L : SimP _ c _) by (eauto with sim)
+        | eassert (L : SimB _ c _) by (eauto with sim) ];
   try (rewrite sp_escape_not_bs in L by (first [assumption | reflexivity]));
   try (change (sp_escape ?uu []) with (@SOk bool false []) in L);
   try (rewrite sp_brq_nil in L);
   (* a backslash: look at the escaped unit before comparing the outcomes *)
-  try match type of L with
-      | SimR _ _ (sp_escape _ (92%N :: ?l)) => is_var l; destruct l; cleanup
-      end;
-  try (progress (cbn [sp_escape] in L; cbn [sp_escape]); unfold g_backslash in *; proj);
   repeat match type of L with
          | SimR _ _ (if ?b then _ else _) => destruct b eqn:?
          end;
@@ -308,6 +413,8 @@ Ltac use_lemma c :=
                    destruct c eqn:E1; destruct x eqn:E2; cbn [SimR] in L; try contradiction; clear E1; norm
   | SimP _ _ ?x => let E1 := fresh "E" in let E2 := fresh "E" in
                    destruct c eqn:E1; destruct x eqn:E2; unfold SimP in L; cbn [fst snd] in L; try contradiction; clear E1; norm
+  | SimB _ _ ?x => let E1 := fresh "E" in let E2 := fresh "E" in
+                   destruct c eqn:E1; destruct x eqn:E2; unfold SimB in L; cbn [fst snd] in L; clear E1; norm
   end.
 Ltac step :=
   simp;
@@ -384,7 +491,7 @@ Proof.
   revert i. induction a as [|x a IH]; intros i H; [rewrite Nat.add_0_r; exact H|].
   cbn [length]. rewrite Nat.add_succ_r. apply (IH (S i)). apply (skipn_S_tl us i x). exact H.
 Qed.
-Lemma scan_drop ds r : Forall (fun c => (c =? 92) = false) ds -> scan false (ds ++ r) = true -> scan false r = true.
+Lemma scan_drop u ds r : Forall (fun c => (c =? 92) = false) ds -> scan u false (ds ++ r) = true -> scan u false r = true.
 Proof.
   induction 1 as [|d ds Hd _ IH]; [trivial|]. cbn [app scan]. unfold g_backslash. rewrite Hd. intros H.
   apply andb_true_iff in H. apply IH. apply H.
@@ -399,7 +506,7 @@ Proof. destruct l; [reflexivity|discriminate]. Qed.
 Lemma min_small n : (n <? bound_limit) = true -> Z.min i64max (Z.of_N n) = Z.of_N n.
 Proof. unfold bound_limit, i64max. intros H. apply N.ltb_lt in H. lia. Qed.
 
-Lemma eat_braced_quantifier_sim u ne s l : at_ u s l -> frag l ->
+Lemma eat_braced_quantifier_sim u ne s l : at_ u s l -> frag u l ->
   SimR (Post u s) (eat_braced_quantifier ne s) (sp_brq u ne l).
 Proof.
   intros Ha Hf. unfold frag in Hf. unfold_hyps. destruct_states. cleanup.
@@ -409,7 +516,7 @@ Proof.
   - simp. cbn [starts_with]. destruct (c =? 123) eqn:Ec.
     2:{ cbn [sp_braced]. unfold g_lbrace. rewrite Ec. rewrite andb_false_r. finish. }
     apply N.eqb_eq in Ec; subst c.
-    assert (Hb : braces_small (123 :: r) = true /\ scan false r = true).
+    assert (Hb : braces_small (123 :: r) = true /\ scan u false r = true).
     { cbn [scan] in Hf. cbn [N.eqb Pos.eqb g_backslash] in Hf. unfold local_ok in Hf. cbn [N.eqb Pos.eqb g_lbrace] in Hf.
       apply andb_true_iff in Hf. destruct Hf as [Hf1 Hf2]. split; [|exact Hf2]. apply andb_true_iff in Hf1. apply Hf1. }
     destruct Hb as [Hb Hr]. unfold braces_small in Hb.
@@ -420,7 +527,7 @@ Proof.
     destruct (is_nil ds) eqn:En; cbn [negb].
     { apply is_nil_true in En. subst ds. rewrite andb_true_r. destruct ne, u; cbn [negb andb orb]; finish. }
     pose proof (skipn_app_drop _ _ _ _ (eq_trans H1 E1)) as H2.
-    assert (Hr1 : scan false r1 = true) by (apply (scan_drop ds); [apply digit_not_bs; exact F1|rewrite <- E1; exact Hr]).
+    assert (Hr1 : scan u false r1 = true) by (apply (scan_drop u ds); [apply digit_not_bs; exact F1|rewrite <- E1; exact Hr]).
     destruct r1 as [|c1 r2].
     { simp. rewrite andb_true_r. destruct ne, u; cbn [negb andb orb]; finish. }
     simp.
@@ -428,23 +535,23 @@ Proof.
     unfold g_comma in *.
     destruct (c1 =? 125) eqn:Ec1.
     { apply N.eqb_eq in Ec1. subst c1.
-      assert (Hr2 : scan false r2 = true) by (apply (scan_drop [125]); [repeat constructor|exact Hr1]).
+      assert (Hr2 : scan u false r2 = true) by (apply (scan_drop u [125]); [repeat constructor|exact Hr1]).
       cbn [N.eqb Pos.eqb]. simp. rewrite Z.ltb_irrefl. rewrite andb_false_r.
       cbn [bounds_ok]. rewrite N.leb_refl. cbn [negb]. rewrite andb_false_r. finish. }
     destruct (c1 =? 44) eqn:Ec2.
     2:{ simp. rewrite Ec1. rewrite andb_true_r. destruct ne, u; cbn [negb andb orb]; finish. }
-    assert (Hr2 : scan false r2 = true).
-    { apply N.eqb_eq in Ec2. subst c1. apply (scan_drop [44]); [repeat constructor|exact Hr1]. }
+    assert (Hr2 : scan u false r2 = true).
+    { apply N.eqb_eq in Ec2. subst c1. apply (scan_drop u [44]); [repeat constructor|exact Hr1]. }
     rewrite (eat_decimal_digits_eq _ _ _ _ _ _ _ _ _ _ _ _ _ _ _ r2 H3). proj.
     destruct (span_digits_spec r2) as [E2 [F2 N2]]. destruct (span_digits r2) as [es r3]. cbn [fst snd] in *.
     pose proof (skipn_app_drop _ _ _ _ (eq_trans H3 E2)) as H4.
-    assert (Hr3 : scan false r3 = true) by (apply (scan_drop es); [apply digit_not_bs; exact F2|rewrite <- E2; exact Hr2]).
+    assert (Hr3 : scan u false r3 = true) by (apply (scan_drop u es); [apply digit_not_bs; exact F2|rewrite <- E2; exact Hr2]).
     destruct r3 as [|c3 r4].
     { simp. rewrite andb_true_r. destruct ne, u; cbn [negb andb orb]; finish. }
     simp. destruct (c3 =? 125) eqn:Ec3.
     2:{ rewrite andb_true_r. destruct ne, u; cbn [negb andb orb]; finish. }
     apply N.eqb_eq in Ec3. subst c3. pose proof (skipn_S_tl _ _ _ _ H4) as H5.
-    assert (Hr4 : scan false r4 = true) by (apply (scan_drop [125]); [repeat constructor|exact Hr3]).
+    assert (Hr4 : scan u false r4 = true) by (apply (scan_drop u [125]); [repeat constructor|exact Hr3]).
     apply andb_true_iff in Hb. destruct Hb as [Hb1 Hb2].
     rewrite (min_small _ Hb1).
     destruct (is_nil es) eqn:En2; cbn [negb bounds_ok].
@@ -457,16 +564,277 @@ Proof.
 Qed.
 
 #[local] Hint Resolve eat_braced_quantifier_sim : sim.
-Lemma consume_quantifier_sim u nc s l : at_ u s l -> frag l ->
+Lemma consume_quantifier_sim u nc s l : at_ u s l -> frag u l ->
   SimR (Post u s) (consume_quantifier nc s) (sp_quant u nc l).
 Proof. start consume_quantifier. unfold sp_quant, is_quant_char, skip_lazy. go. Qed.
 #[local] Hint Resolve consume_quantifier_sim : sim.
 
-Lemma rs_atom_escape_sim u s l : at_ u s l -> frag l ->
+
+(* ---- hexadecimal digits ---- *)
+Fixpoint hex_foldZ (n : nat) (l : list N) (acc : Z) : bool * Z :=
+  match n with
+  | O => (true, acc)
+  | S n => match l with
+           | c :: r => if is_hex c then hex_foldZ n r (16 * acc + hexval c)%Z else (false, acc)
+           | [] => (false, acc)
+           end
+  end.
+Lemma fixed_hex_eq st uf nf mn mx ls lk lvv lq nc gn bn us start : forall n l i lv, skipn i us = l ->
+  fixed_hex n start (mkvst (mkreader us i) st uf nf lv mn mx ls lk lvv lq nc gn bn) =
+  (fst (hex_foldZ n l lv),
+   mkvst (mkreader us (if fst (hex_foldZ n l lv) then i + n else start)) st uf nf (snd (hex_foldZ n l lv)) mn mx ls lk lvv lq nc gn bn).
+Proof.
+  induction n as [|n IH]; intros l i lv Hl; cbn [fixed_hex hex_foldZ fst snd]; [rewrite Nat.add_0_r; reflexivity|].
+  unfold cp. cbn [rd]. rewrite r_cp_skipn, Hl. destruct l as [|c l']; cbn [nth_error].
+  - unfold rewind, set, r_rewind. reflexivity.
+  - destruct (is_hex c) eqn:Ec; [|unfold rewind, set, r_rewind; reflexivity].
+    pose proof (skipn_S_tl us i c l' Hl) as Hl'.
+    unfold advance, set. cbn [rd units idx liv strict uflag nflag lmin lmax lstr lkey lval laq ncap gnames brnames].
+    unfold r_advance. rewrite r_cp_skipn. cbn [units idx]. rewrite Hl. cbn [nth_error].
+    rewrite (IH l' (S i) _ Hl'). replace (S i + n)%nat with (i + S n)%nat by lia. reflexivity.
+Qed.
+Lemma hex_fold_run n : forall l a,
+  match hex_run n l a with
+  | Some (v, r) => hex_foldZ n l (Z.of_N a) = (true, Z.of_N v) /\ r = skipn n l
+  | None => fst (hex_foldZ n l (Z.of_N a)) = false
+  end.
+Proof.
+  induction n as [|n IH]; intros l a; cbn [hex_run hex_foldZ]; [split; reflexivity|].
+  destruct l as [|c l']; [reflexivity|]. change (is_hex c) with (hex_digit c). destruct (hex_digit c); [|reflexivity].
+  replace (16 * Z.of_N a + hexval c)%Z with (Z.of_N (16 * a + hex_digit_value c)).
+  - apply IH.
+  - change (hexval c) with (Z.of_N (hex_digit_value c)). lia.
+Qed.
+Lemma skipn_skipn' {A} (us : list A) i n l : skipn i us = l -> skipn (i + n) us = skipn n l.
+Proof.
+  intros <-. revert us. induction i as [|i IH]; intros us; [reflexivity|].
+  destruct us as [|x us]; [cbn [plus skipn]; destruct n; reflexivity|]. cbn [plus skipn]. apply IH.
+Qed.
+Lemma hexd_not_bs hs : Forall hexd hs -> Forall (fun c => (c =? 92) = false) hs.
+Proof. apply Forall_impl. intros c Hc. apply N.eqb_neq. intros ->. discriminate Hc. Qed.
+Lemma eat_fixed_hex_digits_eq st uf nf lv mn mx ls lk lvv lq nc gn bn us i n l : skipn i us = l ->
+  eat_fixed_hex_digits n (mkvst (mkreader us i) st uf nf lv mn mx ls lk lvv lq nc gn bn) =
+  (fst (hex_foldZ n l 0),
+   mkvst (mkreader us (if fst (hex_foldZ n l 0) then i + n else i)) st uf nf (snd (hex_foldZ n l 0)) mn mx ls lk lvv lq nc gn bn).
+Proof.
+  intros Hl. unfold eat_fixed_hex_digits, set, pos.
+  cbn [rd units idx liv strict uflag nflag lmin lmax lstr lkey lval laq ncap gnames brnames].
+  apply fixed_hex_eq. exact Hl.
+Qed.
+
+Lemma eat_fixed_hex_digits_sim n u s l : at_ u s l -> frag u l ->
+  SimB (Post u s) (eat_fixed_hex_digits n s) (sp_fixed_hex n l).
+Proof.
+  intros Ha Hf. unfold frag in Hf. unfold_hyps. destruct_states. cleanup.
+  rewrite (eat_fixed_hex_digits_eq _ _ _ _ _ _ _ _ _ _ _ _ _ _ _ n l H). unfold sp_fixed_hex.
+  pose proof (hex_fold_run n l 0) as Hr. change (Z.of_N 0) with 0%Z in Hr.
+  destruct (hex_run n l 0) as [[v r]|] eqn:E.
+  - destruct Hr as [Hr ->]. rewrite Hr. cbn [fst snd]. unfold SimB. cbn [fst snd]. split; [reflexivity|].
+    apply hex_run_spec in E. destruct E as [hs [E [_ [Hh _]]]].
+    unfold Post, at_, cfgeq, frag, pos. proj. repeat split; try reflexivity.
+    + apply skipn_skipn'. exact H.
+    + apply (scan_drop u hs); [apply hexd_not_bs; exact Hh|]. rewrite <- E. exact Hf.
+  - rewrite Hr. unfold SimB. cbn [fst snd]. split; [reflexivity|].
+    unfold Post, at_, cfgeq, frag, pos. proj. repeat split; try reflexivity; assumption.
+Qed.
+#[local] Hint Resolve eat_fixed_hex_digits_sim : sim.
+
+Lemma is_lead_N v : is_lead (Z.of_N v) = lead_surrogate v.
+Proof.
+  unfold is_lead, lead_surrogate. f_equal; [destruct (N.leb_spec 55296 v)|destruct (N.leb_spec v 56319)];
+    first [apply Z.leb_le; lia | apply Z.leb_gt; lia].
+Qed.
+Lemma is_trail_N v : is_trail (Z.of_N v) = trail_surrogate v.
+Proof.
+  unfold is_trail, trail_surrogate. f_equal; [destruct (N.leb_spec 56320 v)|destruct (N.leb_spec v 57343)];
+    first [apply Z.leb_le; lia | apply Z.leb_gt; lia].
+Qed.
+Ltac finishB :=
+  unfold SimB; cbn [fst snd]; split; [reflexivity|]; unfold Post, at_, cfgeq, frag, pos; proj;
+  repeat split; try reflexivity; try assumption.
+Lemma eat_surrogate_pair_escape_sim u s l : at_ u s l -> frag u l ->
+  SimB (Post u s) (eat_surrogate_pair_escape s) (sp_surrogate_pair l).
+Proof.
+  intros Ha Hf. unfold frag in Hf. unfold_hyps. destruct_states. cleanup.
+  unfold eat_surrogate_pair_escape, sp_surrogate_pair.
+  rewrite (eat_fixed_hex_digits_eq _ _ _ _ _ _ _ _ _ _ _ _ _ _ _ 4 l H).
+  pose proof (hex_fold_run 4 l 0) as Hr. change (Z.of_N 0) with 0%Z in Hr.
+  destruct (hex_run 4 l 0) as [[v r1]|] eqn:E.
+  2:{ rewrite Hr. finishB. }
+  destruct Hr as [Hr Er1]. rewrite Hr. cbn [fst snd]. proj. rewrite is_lead_N.
+  destruct (lead_surrogate v) eqn:El.
+  2:{ prim. finishB. }
+  pose proof (skipn_skipn' _ _ 4 _ H) as H1. rewrite <- Er1 in H1.
+  apply hex_run_spec in E. destruct E as [hs [E [_ [Hh _]]]].
+  assert (Hf1 : scan u false r1 = true) by (apply (scan_drop u hs); [apply hexd_not_bs; exact Hh|rewrite <- E; exact Hf]).
+  prim. rw_skipn.
+  destruct r1 as [|b [|x r2]]; [proj; finishB| |].
+  { proj. unfold_chars. destruct (b =? 92) eqn:Eb; [|proj; finishB]. apply N.eqb_eq in Eb. subst b.
+    pose proof (skipn_S_tl _ _ _ _ H1) as H2. proj. rw_skipn. proj. finishB. }
+  proj. unfold_chars. destruct (b =? 92) eqn:Eb; [|proj; finishB]. apply N.eqb_eq in Eb. subst b.
+  pose proof (skipn_S_tl _ _ _ _ H1) as H2. proj. rw_skipn. proj.
+  destruct (x =? 117) eqn:Ex; [|proj; finishB]. apply N.eqb_eq in Ex. subst x.
+  pose proof (skipn_S_tl _ _ _ _ H2) as H3. proj. rw_skipn.
+  assert (Hf2 : scan u false r2 = true).
+  { cbn [scan] in Hf1. cbn [N.eqb Pos.eqb g_backslash] in Hf1. apply andb_true_iff in Hf1. apply Hf1. }
+  rewrite (eat_fixed_hex_digits_eq _ _ _ _ _ _ _ _ _ _ _ _ _ _ _ 4 r2 H3).
+  pose proof (hex_fold_run 4 r2 0) as Hr2. change (Z.of_N 0) with 0%Z in Hr2.
+  destruct (hex_run 4 r2 0) as [[w r3]|] eqn:E2.
+  2:{ rewrite Hr2. proj. finishB. }
+  destruct Hr2 as [Hr2 Er3]. rewrite Hr2. cbn [fst snd]. proj. rewrite is_trail_N.
+  destruct (trail_surrogate w) eqn:Et; [|proj; finishB].
+  pose proof (skipn_skipn' _ _ 4 _ H3) as H4. rewrite <- Er3 in H4.
+  apply hex_run_spec in E2. destruct E2 as [ts [E2 [_ [Ht _]]]].
+  assert (Hf3 : scan u false r3 = true) by (apply (scan_drop u ts); [apply hexd_not_bs; exact Ht|rewrite <- E2; exact Hf2]).
+  finishB.
+Qed.
+#[local] Hint Resolve eat_surrogate_pair_escape_sim : sim.
+
+Definition sat_step16 (z : Z) (c : N) : Z := sat_mul_add 16 z (hexval c).
+Lemma digits_loop_hex st uf nf mn mx ls lk lvv lq nc gn bn us : forall l f i lv, skipn i us = l -> (length l < f)%nat ->
+  digits_loop f true (mkvst (mkreader us i) st uf nf lv mn mx ls lk lvv lq nc gn bn) =
+  Ok tt (mkvst (mkreader us (i + length (fst (span_hex l)))) st uf nf (fold_left sat_step16 (fst (span_hex l)) lv)
+               mn mx ls lk lvv lq nc gn bn).
+Proof.
+  induction l as [|c l IH]; intros f i lv Hl Hf; (destruct f as [|f]; [cbn in Hf; lia|]); cbn [digits_loop]; unfold cp; cbn [rd];
+    rewrite r_cp_skipn, Hl; cbn [nth_error span_hex].
+  - cbn [fst length fold_left]. rewrite Nat.add_0_r. reflexivity.
+  - change (is_hex c) with (hex_digit c). destruct (hex_digit c) eqn:Ec.
+    + pose proof (skipn_S_tl us i c l Hl) as Hl'.
+      unfold advance, set. cbn [rd units idx liv strict uflag nflag lmin lmax lstr lkey lval laq ncap gnames brnames].
+      unfold r_advance. rewrite r_cp_skipn. cbn [units idx]. rewrite Hl. cbn [nth_error].
+      rewrite (IH f (S i) _ Hl') by (cbn [length] in Hf; lia).
+      destruct (span_hex l) as [ds r']. cbn [fst length fold_left].
+      replace (S i + length ds)%nat with (i + S (length ds))%nat by lia. reflexivity.
+    + cbn [fst length fold_left]. rewrite Nat.add_0_r. reflexivity.
+Qed.
+Lemma sat_fold16 ds : forall a, fold_left sat_step16 ds (Z.min i64max (Z.of_N a)) = Z.min i64max (Z.of_N (fold_left hex_step ds a)).
+Proof.
+  induction ds as [|d ds IH]; intros a; [reflexivity|]. cbn [fold_left]. rewrite <- IH. f_equal.
+  unfold sat_step16, sat_mul_add, sat64, hex_step, i64max, i64min. change (hexval d) with (Z.of_N (hex_digit_value d)). lia.
+Qed.
+Lemma eat_hex_digits_eq st uf nf lv mn mx ls lk lvv lq nc gn bn us i l : skipn i us = l ->
+  eat_hex_digits (mkvst (mkreader us i) st uf nf lv mn mx ls lk lvv lq nc gn bn) =
+  Ok (negb (is_nil (fst (span_hex l))))
+     (mkvst (mkreader us (i + length (fst (span_hex l)))) st uf nf (Z.min i64max (Z.of_N (hex_value (fst (span_hex l)))))
+            mn mx ls lk lvv lq nc gn bn).
+Proof.
+  intros Hl. unfold eat_hex_digits, bind, set. cbn [rd units idx liv strict uflag nflag lmin lmax lstr lkey lval laq ncap gnames brnames].
+  rewrite (digits_loop_hex _ _ _ _ _ _ _ _ _ _ _ _ us l) by
+    (first [exact Hl | unfold fuel_of, remaining, r_remaining; cbn [rd units idx]; rewrite (remaining_skipn us i l Hl); lia]).
+  change 0%Z with (Z.min i64max (Z.of_N 0)). rewrite sat_fold16. fold (hex_value (fst (span_hex l))).
+  unfold pos. cbn [rd idx]. f_equal. destruct (fst (span_hex l)) as [|d0 ds0]; cbn [length is_nil negb]; [rewrite Nat.add_0_r, Nat.eqb_refl; reflexivity|].
+  destruct (Nat.eqb_spec (i + S (length ds0)) i); [lia|reflexivity].
+Qed.
+Lemma eat_codepoint_escape_sim u s l : at_ u s l -> frag u l ->
+  SimR (Post u s) (eat_codepoint_escape s) (sp_codepoint l).
+Proof.
+  intros Ha Hf. unfold frag in Hf. unfold_hyps. destruct_states. cleanup.
+  unfold eat_codepoint_escape, sp_codepoint, bind. prim.
+  destruct l as [|c r]; [simp; finish|]. simp. destruct (c =? 123) eqn:Ec; [|finish].
+  apply N.eqb_eq in Ec. subst c. pose proof (skipn_S_tl _ _ _ _ H) as H1.
+  assert (Hr : scan u false r = true) by (apply (scan_drop u [123]); [repeat constructor|exact Hf]).
+  rewrite (eat_hex_digits_eq _ _ _ _ _ _ _ _ _ _ _ _ _ _ _ r H1). proj.
+  destruct (span_hex_spec r) as [E1 [F1 _]]. destruct (span_hex r) as [ds r1]. cbn [fst snd] in *.
+  destruct (is_nil ds) eqn:En; cbn [negb]; [finish|].
+  pose proof (skipn_app_drop _ _ _ _ (eq_trans H1 E1)) as H2.
+  assert (Hr1 : scan u false r1 = true) by (apply (scan_drop u ds); [apply hexd_not_bs; exact F1|rewrite <- E1; exact Hr]).
+  destruct r1 as [|c1 r2]; [simp; finish|]. simp. destruct (c1 =? 125) eqn:Ec1; [|cbn [andb]; finish].
+  apply N.eqb_eq in Ec1. subst c1. pose proof (skipn_S_tl _ _ _ _ H2) as H3.
+  assert (Hr2 : scan u false r2 = true) by (apply (scan_drop u [125]); [repeat constructor|exact Hr1]).
+  cbn [andb]. proj.
+  replace (Z.min i64max (Z.of_N (hex_value ds)) <=? 1114111)%Z with (hex_value ds <=? 1114111).
+  2:{ unfold i64max. destruct (N.leb_spec (hex_value ds) 1114111); symmetry; [apply Z.leb_le|apply Z.leb_gt]; lia. }
+  destruct (hex_value ds <=? 1114111); finish.
+Qed.
+#[local] Hint Resolve eat_codepoint_escape_sim : sim.
+
+Lemma eat_hex_escape_sequence_sim u s l : at_ u s l -> efrag u l ->
+  SimR (PostE u s) (eat_hex_escape_sequence s) (sp_hex_esc u l).
+Proof. start eat_hex_escape_sequence. unfold sp_hex_esc. go. Qed.
+#[local] Hint Resolve eat_hex_escape_sequence_sim : sim.
+Lemma eat_unicode_escape_sim u s l : at_ u s l -> efrag u l ->
+  SimR (PostE u s) (eat_unicode_escape false s) (sp_unicode_esc u l).
+Proof. start eat_unicode_escape. unfold sp_unicode_esc. go. Qed.
+#[local] Hint Resolve eat_unicode_escape_sim : sim.
+
+(* ---- AtomEscape: the validator is at the unit after the backslash ---- *)
+Lemma is_octal_digit c : is_octal c = true -> is_digit c = true.
+Proof. unfold is_octal, is_digit. intros H. apply andb_true_iff in H. destruct H as [H1 H2]. rewrite H1. apply N.leb_le in H2. apply N.leb_le. lia. Qed.
+Lemma nonzero_digit_spec c : nonzero_digit c = false -> is_digit c = true -> c = 48.
+Proof.
+  unfold nonzero_digit, is_digit. intros H1 H2. apply andb_true_iff in H2. destruct H2 as [H2 H3]. rewrite H3 in H1.
+  rewrite andb_true_r in H1. apply N.leb_le in H2. apply N.leb_gt in H1. lia.
+Qed.
+Lemma efrag_cons u x r : efrag u (x :: r) -> allowed_after_backslash u x r = true /\ scan u false r = true /\
+  nonzero_digit x = false /\ (is_digit x = false \/ x = 48) /\ (is_octal x = false \/ x = 48).
+Proof.
+  unfold efrag. cbn [scan]. intros H. apply andb_true_iff in H. destruct H as [H1 H2]. split; [exact H1|]. split; [exact H2|].
+  assert (Hx : nonzero_digit x = false).
+  { unfold allowed_after_backslash in H1. apply andb_true_iff in H1. destruct H1 as [H1 _]. apply negb_true_iff in H1. exact H1. }
+  split; [exact Hx|].
+  assert (Hd : is_digit x = false \/ x = 48).
+  { destruct (is_digit x) eqn:Ed; [right; apply nonzero_digit_spec; assumption|left; reflexivity]. }
+  split; [exact Hd|]. destruct Hd as [Hd|Hd]; [left|right; exact Hd].
+  destruct (is_octal x) eqn:Eo; [|reflexivity]. apply is_octal_digit in Eo. congruence.
+Qed.
+
+(* consume_backreference finds no DecimalEscape *)
+Lemma consume_backreference_none u s l : at_ u s l -> efrag u l ->
+  SimR (PostE u s) (consume_backreference s) (SOk false l).
+Proof.
+  intros Ha He. unfold_hyps. destruct_states. cleanup.
+  unfold consume_backreference, eat_decimal_escape, bind. prim. simp.
+  destruct l as [|x r]; [finish|].
+  destruct (efrag_cons _ _ _ He) as [_ [_ [Hx [Hd _]]]]. proj.
+  assert (E : is_digit x && negb (x =? 48) = false).
+  { destruct Hd as [Hd|Hd]; [rewrite Hd; reflexivity|subst x; reflexivity]. }
+  rewrite E. finish.
+Qed.
+#[local] Hint Resolve consume_backreference_none : sim.
+
+Ltac split_special x :=
+  let Ex := fresh "Ex" in
+  destruct (existsb (N.eqb x) [100; 68; 115; 83; 119; 87; 112; 80; 102; 110; 114; 116; 118; 99; 48; 120; 117; 107;
+                               94; 36; 92; 46; 42; 43; 63; 40; 41; 91; 93; 123; 125; 124; 47]) eqn:Ex;
+  [ split_mem; cbn [N.eqb Pos.eqb] in *
+  | cbn [existsb] in Ex; repeat (apply orb_false_iff in Ex; let E := fresh "Ne" in destruct Ex as [E Ex]); clear Ex ].
+Lemma cce_sim u s l : at_ u s l -> efrag u l ->
+  SimR (PostE u s) (consume_character_class_escape s) (sp_cce l).
+Proof.
+  intros Ha He. destruct l as [|x r].
+  { exfalso. unfold efrag in He. discriminate He. }
+  destruct (efrag_cons _ _ _ He) as [Hal [Hr _]].
+  norm. unfold consume_character_class_escape, bind. prim. unfold sp_cce, character_class_escape. cbn [existsb].
+  split_special x; go.
+Qed.
+#[local] Hint Resolve cce_sim : sim.
+
+Lemma ce_sim u s l : at_ u s l -> efrag u l ->
+  SimR (PostE u s) (consume_character_escape s) (sp_ce u l).
+Proof.
+  intros Ha He. destruct l as [|x r].
+  { exfalso. unfold efrag in He. discriminate He. }
+  destruct (efrag_cons _ _ _ He) as [Hal [Hr [Hx [Hd Ho]]]].
+  norm. unfold consume_character_escape, eat_control_escape, eat_c_control_letter, eat_control_letter, eat_zero, eat_legacy_octal, eat_octal_digit, eat_identity_escape, valid_identity_escape, bind. prim.
+  unfold sp_ce, control_escape, identity_escape, starts_letter, starts_digit. cbn [existsb].
+  change decimal_digit with is_digit. change control_letter with is_alpha.
+  split_special x.
+  34: { assert (Hd' : is_digit x = false) by (destruct Hd as [Hd|Hd]; [exact Hd|subst x; discriminate]).
+        assert (Ho' : is_octal x = false) by (destruct Ho as [Ho|Ho]; [exact Ho|subst x; discriminate]).
+        clear Hd Ho. go. }
+  all: clear Hd Ho; go.
+Qed.
+#[local] Hint Resolve ce_sim : sim.
+
+Lemma rs_atom_escape_sim u s l : at_ u s l -> frag u l ->
   SimR (Post u s) (consume_reverse_solidus_atom_escape s) (sp_escape u l).
 Proof.
-  start consume_reverse_solidus_atom_escape. unfold consume_atom_escape, consume_backreference, eat_decimal_escape, consume_character_class_escape, consume_character_escape, eat_control_escape, eat_c_control_letter, eat_control_letter, eat_zero, eat_hex_escape_sequence, eat_unicode_escape, eat_legacy_octal, eat_octal_digit, eat_identity_escape, valid_identity_escape, consume_k_group_name, eat_group_name, bind. prim.
-  unfold sp_escape, escape_ok, character_class_escape, control_escape, identity_escape, is_digit, is_octal. cbn [existsb]. go.
+  intros Ha Hf.
+  destruct l as [|b l']; [|destruct (b =? 92) eqn:Eb; [apply N.eqb_eq in Eb; subst b|]].
+  1,3: norm; unfold consume_reverse_solidus_atom_escape, bind; prim; unfold sp_escape; solve [go].
+  norm. unfold consume_reverse_solidus_atom_escape, consume_atom_escape, consume_k_group_name, eat_group_name, bind. prim.
+  cbn [sp_escape N.eqb Pos.eqb g_backslash]. rewrite sp_atom_escape_split. go.
 Qed.
 #[local] Hint Resolve rs_atom_escape_sim : sim.
 
@@ -475,17 +843,17 @@ Variable disj : vst -> R unit.
 Variable sdisj : list N -> SR unit.
 (* the recursive call (one nesting level deeper) simulates the recogniser's, in mode u *)
 Definition disj_sim (u : bool) : Prop :=
-  forall s l, at_ u s l -> frag l -> SimR (Post u s) (disj s) (sdisj l).
+  forall s l, at_ u s l -> frag u l -> SimR (Post u s) (disj s) (sdisj l).
 #[local] Hint Extern 1 (disj_sim _) => eassumption : sim.
 #[local] Hint Extern 2 (SimR _ (disj _) _) =>
   match goal with H : disj_sim _ |- _ => eapply H end : sim.
 
-Lemma assertion_sim u s l : disj_sim u -> at_ u s l -> frag l ->
+Lemma assertion_sim u s l : disj_sim u -> at_ u s l -> frag u l ->
   SimR (fun a t l' => Post u s a t l' /\ (a = true -> laq t = quantifiable u l)) (assertion disj s) (sp_assertion sdisj l).
 Proof. start assertion. unfold sp_assertion, sp_group_body, quantifiable, is_eq_or_bang, assertion_escape. go. Qed.
 #[local] Hint Resolve assertion_sim : sim.
 
-Lemma atom_sim s l : disj_sim true -> at_ true s l -> frag l -> assertion_prefix l = false ->
+Lemma atom_sim s l : disj_sim true -> at_ true s l -> frag true l -> assertion_prefix l = false ->
   SimR (Post true s) (atom disj s) (sp_atom true sdisj l).
 Proof.
   start atom. unfold consume_character_class, uncapturing_group, capturing_group,
@@ -494,35 +862,41 @@ Proof.
 Qed.
 #[local] Hint Resolve atom_sim : sim.
 
-Lemma extended_atom_sim s l : disj_sim false -> at_ false s l -> frag l -> assertion_prefix l = false ->
+Lemma scan_c u l : scan u false l = true -> scan u false (99 :: l) = true.
+Proof.
+  intros H. cbn [scan N.eqb Pos.eqb g_backslash]. rewrite H. unfold plain_char, local_ok.
+  cbn [N.eqb Pos.eqb g_lbracket g_lbrace g_lparen andb negb]. destruct l as [|? [|? ?]]; reflexivity.
+Qed.
+Lemma extended_atom_sim s l : disj_sim false -> at_ false s l -> frag false l -> assertion_prefix l = false ->
   SimR (Post false s) (extended_atom disj s) (sp_atom false sdisj l).
 Proof.
   start extended_atom. unfold consume_character_class, uncapturing_group, capturing_group,
     consume_group_specifier, eat_group_name, bind. prim.
-  unfold sp_atom, sp_group_body, extended_pattern_character. go.
+  unfold sp_atom, sp_group_body, extended_pattern_character, bs_c. go.
+  apply scan_c. assumption.
 Qed.
 #[local] Hint Resolve extended_atom_sim : sim.
 
-Lemma term_sim u s l : disj_sim u -> at_ u s l -> frag l -> SimR (Post u s) (term disj s) (sp_term u sdisj l).
+Lemma term_sim u s l : disj_sim u -> at_ u s l -> frag u l -> SimR (Post u s) (term disj s) (sp_term u sdisj l).
 Proof. start term. unfold sp_term, sp_quantified. go. Qed.
 #[local] Hint Resolve term_sim : sim.
 
-Lemma alternative_sim u (Hd : disj_sim u) g : forall s l, at_ u s l -> frag l ->
+Lemma alternative_sim u (Hd : disj_sim u) g : forall s l, at_ u s l -> frag u l ->
   SimR (Post u s) (alternative disj g s) (sp_alternative u sdisj g l).
 Proof. induction g as [|g IH]; intros s l Ha Hf; [exact I|]. norm. cbn [alternative sp_alternative]. unfold bind. prim. go. Qed.
 #[local] Hint Resolve alternative_sim : sim.
 
-Lemma bars_sim u (Hd : disj_sim u) g : forall s l, at_ u s l -> frag l ->
+Lemma bars_sim u (Hd : disj_sim u) g : forall s l, at_ u s l -> frag u l ->
   SimR (Post u s) (bars disj g s) (sp_bars u sdisj g l).
 Proof. induction g as [|g IH]; intros s l Ha Hf; [exact I|]. norm. cbn [bars sp_bars]. unfold bind. prim. go. Qed.
 #[local] Hint Resolve bars_sim : sim.
 
-Lemma disjunction_body_sim u s l : disj_sim u -> at_ u s l -> frag l ->
+Lemma disjunction_body_sim u s l : disj_sim u -> at_ u s l -> frag u l ->
   SimR (Post u s) (disjunction_body disj s) (sp_disjunction_body u sdisj l).
 Proof. start disjunction_body. unfold sp_disjunction_body, starts_with. go. Qed.
 End KnotSim.
 
-Lemma disjunction_sim u f : forall s l, at_ u s l -> frag l ->
+Lemma disjunction_sim u f : forall s l, at_ u s l -> frag u l ->
   SimR (Post u s) (disjunction f s) (sp_disjunction u f l).
 Proof.
   induction f as [|f IH]; intros s l Ha Hf; [exact I|]. cbn [disjunction sp_disjunction].
@@ -530,7 +904,7 @@ Proof.
 Qed.
 #[local] Hint Resolve disjunction_sim : sim.
 
-Lemma consume_pattern_sim u s l : at_ u s l -> frag l ->
+Lemma consume_pattern_sim u s l : at_ u s l -> frag u l ->
   SimR (fun _ t l' => l' = [] /\ gnames t = []) (consume_pattern s) (sp_pattern u l).
 Proof.
   intros Ha Hf. norm. unfold consume_pattern, bind, pattern_fuel, count_capturing_parens. prim. unfold sp_pattern. go.
@@ -541,7 +915,7 @@ Definition outcome_agrees {A B} (r : R A) (x : SR B) : Prop :=
   | Ok _ _, SOk _ _ => True | SyntaxErr _ _, SErr => True | OutOfFuel, SFuel => True | _, _ => False end.
 
 (* the fragment condition is on the units the validator reads (code points with u, UTF-16 code units without) *)
-Theorem validate_pattern_sim st src u : scan false (visible_units src u) = true ->
+Theorem validate_pattern_sim st src u : scan u false (visible_units src u) = true ->
   outcome_agrees (validate_pattern st src u) (sp_pattern u (visible_units src u)).
 Proof.
   intros Hf. unfold validate_pattern, bind.
